@@ -20,6 +20,10 @@ pub struct Shared {
     /// rotated to the MRU end without a use (skipped victim / dirty entry met by the
     /// size-based eviction).
     pub applied: Mutex<Vec<(u8, u64)>>,
+    /// switch points under a shard write lock are taken (Config::wlock_sp)
+    pub wlock_sp: std::sync::atomic::AtomicBool,
+    /// number of threads currently parked at such a switch point
+    pub write_held: std::sync::atomic::AtomicUsize,
 }
 
 impl Shared {
@@ -101,6 +105,27 @@ impl Hooks for SimHooks {
             let n = self.retries.fetch_add(1, std::sync::atomic::Ordering::Relaxed);
             if n > RETRY_LIMIT {
                 panic!("{}", RETRY_LIVELOCK);
+            }
+        }
+    }
+
+    fn sp_locked(&self, site: &'static str) {
+        use std::sync::atomic::Ordering::SeqCst;
+        if let Some(s) = &self.sched {
+            if self.shared.wlock_sp.load(SeqCst) {
+                self.shared.write_held.fetch_add(1, SeqCst);
+                s.switch_point(self.tid, site);
+                self.shared.write_held.fetch_sub(1, SeqCst);
+            }
+        }
+    }
+
+    fn map_probe_any(&self) {
+        use std::sync::atomic::Ordering::SeqCst;
+        if let Some(s) = &self.sched {
+            if self.shared.wlock_sp.load(SeqCst) {
+                let shared = Arc::clone(&self.shared);
+                s.map_probe(self.tid, &move || shared.write_held.load(SeqCst) > 0);
             }
         }
     }
